@@ -6,7 +6,7 @@
    specification: Store.DiffDBSpec (one sorted map with the staged writes applied) resp. the
    "keys inside the bounds, in order, truncated" functions of Store.PebbleIter. *)
 From Coq Require Import List NArith ZArith Bool.
-From LE Require Import Base.Corr Base.Lex Store.SMap Store.PebbleIter Store.DiffDB Store.DiffDBSpec.
+From LE Require Import Base.Corr Base.Lex Store.SMap Store.PebbleIter Store.DiffDB Store.DiffDBSpec Store.BatchDB.
 Import ListNotations.
 Local Open Scope N_scope.
 
@@ -104,3 +104,14 @@ Definition check_scan (c : scan_case) : N :=
     | _ => (keys_only (iterate_prefix db a limit reverse), keys_only (prefix_spec db a limit reverse))
     end in
   code (sortedb db && smap_eqb observed model) (smap_eqb observed spec).
+
+(* (prefix, db, batchdb operations with the observed results, dump after writing the batch) *)
+Definition bdb_case : Type := (key * smap * list (bop * res) * smap)%type.
+Definition check_bdb (c : bdb_case) : N :=
+  let '(pfx, db, ors, after) := c in
+  let ops := map fst ors in
+  let obs := map snd ors in
+  let '(batch, rs) := bdb_run db pfx [] ops in
+  code (sortedb db && list_eqb res_eqb obs rs && smap_eqb after (apply_writes batch db))
+       (list_eqb res_eqb obs (map (bdb_read_spec db pfx) ops)
+        && smap_eqb after (s_map (fst (spec_run (spec_init db pfx) (flat_map bop_as_op ops))))).
